@@ -18,6 +18,9 @@ const GRID: u64 = 256; // rounding grid 2^-GRID when denominators exceed 2*GRID 
 
 #[derive(Copy, Clone, Debug)]
 pub enum Q {
+    /// small rational stored inline: num / den with den > 0, gcd(num, den) = 1, |num| <= i64::MAX
+    Sm(i64, i64),
+    /// big rational in the thread-local arena
     Fin { idx: u32, generation: u32 },
     PInf,
     NInf,
@@ -76,6 +79,12 @@ fn normalise(r: BigRational, rounded: &mut u64) -> BigRational {
 
 impl Q {
     pub fn from_ratio(r: BigRational) -> Q {
+        // values that fit are kept inline (no arena growth: an O(N^2)-per-update view would otherwise allocate gigabytes per case)
+        if let (Some(n), Some(d)) = (r.numer().to_i64(), r.denom().to_i64()) {
+            if n != i64::MIN && d > 0 {
+                return Q::Sm(n, d);
+            }
+        }
         ARENA.with(|a| {
             let mut a = a.borrow_mut();
             let mut rd = a.rounded;
@@ -85,8 +94,29 @@ impl Q {
             Q::Fin { idx: (a.vals.len() - 1) as u32, generation: a.generation }
         })
     }
+    /// inline rational from an i128 fraction (den != 0); reduces, spills to the arena if it does not fit
+    fn from_i128(n: i128, d: i128) -> Q {
+        debug_assert!(d != 0);
+        let (mut n, mut d) = if d < 0 { (-n, -d) } else { (n, d) };
+        if n == 0 {
+            return Q::Sm(0, 1);
+        }
+        let g = gcd_i128(n.unsigned_abs(), d.unsigned_abs()) as i128;
+        n /= g;
+        d /= g;
+        if n > i64::MIN as i128 && n <= i64::MAX as i128 && d <= i64::MAX as i128 {
+            Q::Sm(n as i64, d as i64)
+        } else {
+            Q::from_ratio(BigRational::new_raw(BigInt::from(n), BigInt::from(d)))
+        }
+    }
+    #[inline]
+    pub fn is_fin(self) -> bool {
+        matches!(self, Q::Sm(..) | Q::Fin { .. })
+    }
     pub fn get(self) -> Option<BigRational> {
         match self {
+            Q::Sm(n, d) => Some(BigRational::new_raw(BigInt::from(n), BigInt::from(d))),
             Q::Fin { idx, generation } => ARENA.with(|a| {
                 let a = a.borrow();
                 assert_eq!(a.generation, generation, "stale Q handle");
@@ -106,7 +136,7 @@ impl Q {
     }
     pub fn to_f64_lossy(self) -> f64 {
         match self {
-            Q::Fin { .. } => {
+            Q::Sm(..) | Q::Fin { .. } => {
                 let r = self.get().unwrap();
                 // robust conversion: scale
                 ratio_to_f64(&r)
@@ -118,6 +148,7 @@ impl Q {
     }
     fn sign(self) -> i32 {
         match self {
+            Q::Sm(n, _) => n.signum() as i32,
             Q::Fin { .. } => {
                 let r = self.get().unwrap();
                 if r.is_zero() { 0 } else if r.is_positive() { 1 } else { -1 }
@@ -127,6 +158,15 @@ impl Q {
             Q::NaN => 0,
         }
     }
+}
+
+fn gcd_i128(mut a: u128, mut b: u128) -> u128 {
+    while b != 0 {
+        let t = a % b;
+        a = b;
+        b = t;
+    }
+    a.max(1)
 }
 
 pub fn ratio_to_f64(r: &BigRational) -> f64 {
@@ -313,12 +353,15 @@ binop!(Add, add, |a, b| match (a, b) {
     (Q::PInf, Q::NInf) | (Q::NInf, Q::PInf) => Q::NaN,
     (Q::PInf, _) | (_, Q::PInf) => Q::PInf,
     (Q::NInf, _) | (_, Q::NInf) => Q::NInf,
+    // |n| < 2^63, d < 2^63: each product < 2^126, their sum < 2^127
+    (Q::Sm(n1, d1), Q::Sm(n2, d2)) => Q::from_i128(n1 as i128 * d2 as i128 + n2 as i128 * d1 as i128, d1 as i128 * d2 as i128),
     _ => Q::from_ratio(a.get().unwrap() + b.get().unwrap()),
 });
 binop!(Sub, sub, |a, b| a + (-b));
 binop!(Mul, mul, |a, b| match (a, b) {
     (Q::NaN, _) | (_, Q::NaN) => Q::NaN,
-    (Q::Fin { .. }, Q::Fin { .. }) => Q::from_ratio(a.get().unwrap() * b.get().unwrap()),
+    (Q::Sm(n1, d1), Q::Sm(n2, d2)) => Q::from_i128(n1 as i128 * n2 as i128, d1 as i128 * d2 as i128),
+    (x, y) if x.is_fin() && y.is_fin() => Q::from_ratio(a.get().unwrap() * b.get().unwrap()),
     _ => {
         let s = a.sign() * b.sign();
         if s == 0 { Q::NaN } else if s > 0 { Q::PInf } else { Q::NInf }
@@ -326,7 +369,8 @@ binop!(Mul, mul, |a, b| match (a, b) {
 });
 binop!(Div, div, |a, b| match (a, b) {
     (Q::NaN, _) | (_, Q::NaN) => Q::NaN,
-    (Q::Fin { .. }, Q::Fin { .. }) => {
+    (Q::Sm(n1, d1), Q::Sm(n2, d2)) if n2 != 0 => Q::from_i128(n1 as i128 * d2 as i128, d1 as i128 * n2 as i128),
+    (x, y) if x.is_fin() && y.is_fin() => {
         let bv = b.get().unwrap();
         if bv.is_zero() {
             let s = a.sign();
@@ -335,8 +379,8 @@ binop!(Div, div, |a, b| match (a, b) {
             Q::from_ratio(a.get().unwrap() / bv)
         }
     }
-    (Q::Fin { .. }, _) => Q::from_ratio(BigRational::zero()),
-    (_, Q::Fin { .. }) => {
+    (x, _) if x.is_fin() => Q::Sm(0, 1),
+    (_, y) if y.is_fin() => {
         let s = a.sign() * if b.sign() < 0 { -1 } else { 1 };
         if s > 0 { Q::PInf } else { Q::NInf }
     }
@@ -350,6 +394,7 @@ impl Neg for Q {
             Q::NaN => Q::NaN,
             Q::PInf => Q::NInf,
             Q::NInf => Q::PInf,
+            Q::Sm(n, d) => Q::Sm(-n, d), // |n| <= i64::MAX by construction
             _ => Q::from_ratio(-self.get().unwrap()),
         }
     }
@@ -366,14 +411,8 @@ impl PartialOrd for Q {
             (Q::PInf, Q::PInf) | (Q::NInf, Q::NInf) => Some(Ordering::Equal),
             (Q::PInf, _) | (_, Q::NInf) => Some(Ordering::Greater),
             (Q::NInf, _) | (_, Q::PInf) => Some(Ordering::Less),
-            (a, b) => ARENA.with(|ar| {
-                let ar = ar.borrow();
-                if let (Q::Fin { idx: i, .. }, Q::Fin { idx: j, .. }) = (a, b) {
-                    Some(ar.vals[i as usize].cmp(&ar.vals[j as usize]))
-                } else {
-                    unreachable!()
-                }
-            }),
+            (Q::Sm(n1, d1), Q::Sm(n2, d2)) => Some((n1 as i128 * d2 as i128).cmp(&(n2 as i128 * d1 as i128))),
+            (a, b) => Some(a.get().unwrap().cmp(&b.get().unwrap())),
         }
     }
 }
@@ -382,7 +421,11 @@ impl Zero for Q {
         Q::from_ratio(BigRational::zero())
     }
     fn is_zero(&self) -> bool {
-        matches!(self, Q::Fin { .. }) && self.get().unwrap().is_zero()
+        match self {
+            Q::Sm(n, _) => *n == 0,
+            Q::Fin { .. } => self.get().unwrap().is_zero(),
+            _ => false,
+        }
     }
 }
 impl One for Q {
@@ -447,7 +490,7 @@ impl num::Float for Q {
     fn epsilon() -> Q { Q::from_ratio(BigRational::new(BigInt::one(), BigInt::one() << P)) }
     fn is_nan(self) -> bool { matches!(self, Q::NaN) }
     fn is_infinite(self) -> bool { matches!(self, Q::PInf | Q::NInf) }
-    fn is_finite(self) -> bool { matches!(self, Q::Fin { .. }) }
+    fn is_finite(self) -> bool { self.is_fin() }
     fn is_normal(self) -> bool { self.is_finite() && !self.is_zero() }
     fn classify(self) -> FpCategory {
         match self {
@@ -475,7 +518,7 @@ impl num::Float for Q {
     fn recip(self) -> Q { Q::one() / self }
     fn powi(self, n: i32) -> Q {
         match self {
-            Q::Fin { .. } => {
+            Q::Sm(..) | Q::Fin { .. } => {
                 let r = self.get().unwrap();
                 if n >= 0 { Q::from_ratio(num::pow(r, n as usize)) } else { Q::one() / Q::from_ratio(num::pow(r, (-n) as usize)) }
             }
@@ -593,7 +636,7 @@ impl Q {
     }
     pub fn extract(self) -> XV {
         match self {
-            Q::Fin { .. } => XV::Fin(self.get().unwrap()),
+            Q::Sm(..) | Q::Fin { .. } => XV::Fin(self.get().unwrap()),
             Q::PInf => XV::PInf,
             Q::NInf => XV::NInf,
             Q::NaN => XV::NaN,
@@ -639,3 +682,71 @@ q_consts!(
     FRAC_PI_6 = std::f64::consts::FRAC_PI_6, FRAC_PI_8 = std::f64::consts::FRAC_PI_8, LN_10 = std::f64::consts::LN_10, LN_2 = std::f64::consts::LN_2, LOG10_E = std::f64::consts::LOG10_E,
     LOG2_E = std::f64::consts::LOG2_E, PI = std::f64::consts::PI, SQRT_2 = std::f64::consts::SQRT_2,
 );
+
+/// Self-test of the inline fast paths against plain BigRational arithmetic (run by `vcheck selftest-q`).
+pub fn selftest(iterations: u64) -> Result<u64, String> {
+    use num::traits::Signed as _;
+    let mut st: u64 = 0x5EED_1234_ABCD_EF01;
+    let mut next = move || {
+        st = st.wrapping_add(0x9E3779B97F4A7C15);
+        let mut z = st;
+        z = (z ^ (z >> 30)).wrapping_mul(0xBF58476D1CE4E5B9);
+        z = (z ^ (z >> 27)).wrapping_mul(0x94D049BB133111EB);
+        z ^ (z >> 31)
+    };
+    let pick = |r: u64, w: u64| -> i64 {
+        match w % 8 {
+            0 => 0,
+            1 => 1,
+            2 => -1,
+            3 => i64::MAX,
+            4 => -i64::MAX,
+            5 => (r % 2001) as i64 - 1000,
+            6 => (r >> 1) as i64,
+            _ => -((r >> 3) as i64),
+        }
+    };
+    let mut checked = 0;
+    for _ in 0..iterations {
+        arena_reset();
+        let (n1, n2) = (pick(next(), next()), pick(next(), next()));
+        let d1 = pick(next(), next()).checked_abs().unwrap_or(1).max(1);
+        let d2 = pick(next(), next()).checked_abs().unwrap_or(1).max(1);
+        let (r1, r2) = (BigRational::new(BigInt::from(n1), BigInt::from(d1)), BigRational::new(BigInt::from(n2), BigInt::from(d2)));
+        let (a, b) = (Q::from_ratio(r1.clone()), Q::from_ratio(r2.clone()));
+        let same = |q: Q, r: &BigRational, what: &str| -> Result<(), String> {
+            match q.get() {
+                Some(v) if &v == r => {
+                    if let Q::Sm(n, d) = q {
+                        if d <= 0 || n == i64::MIN || gcd_i128(n.unsigned_abs() as u128, d as u128) != 1 {
+                            return Err(format!("{what}: inline value {n}/{d} not normalised"));
+                        }
+                    }
+                    Ok(())
+                }
+                other => Err(format!("{what}({n1}/{d1}, {n2}/{d2}) = {other:?}, expected {r}")),
+            }
+        };
+        same(a + b, &(&r1 + &r2), "add")?;
+        same(a - b, &(&r1 - &r2), "sub")?;
+        same(a * b, &(&r1 * &r2), "mul")?;
+        if !r2.is_zero() {
+            same(a / b, &(&r1 / &r2), "div")?;
+        } else {
+            let q = a / b;
+            let ok = if r1.is_zero() { matches!(q, Q::NaN) } else if r1.is_positive() { matches!(q, Q::PInf) } else { matches!(q, Q::NInf) };
+            if !ok {
+                return Err(format!("div by zero: {n1}/{d1} / 0 = {q:?}"));
+            }
+        }
+        same(-a, &(-&r1), "neg")?;
+        if a.partial_cmp(&b) != Some(r1.cmp(&r2)) {
+            return Err(format!("cmp({n1}/{d1}, {n2}/{d2}) = {:?}", a.partial_cmp(&b)));
+        }
+        if (a == b) != (r1 == r2) {
+            return Err("eq".into());
+        }
+        checked += 7;
+    }
+    Ok(checked)
+}
